@@ -205,11 +205,17 @@ impl OutputFormat for XBin {
         result.ice_mode = if use_ice { IceMode::Ice } else { IceMode::Blink };
 
         if has_custom_palette {
+            if data.len() < o + XBIN_PALETTE_LENGTH {
+                return Err(LoadingError::FileTooShort.into());
+            }
             result.palette = Palette::from_63(&data[o..(o + XBIN_PALETTE_LENGTH)]);
             o += XBIN_PALETTE_LENGTH;
         }
         if has_custom_font {
             let font_length = font_size as usize * 256;
+            if data.len() < o + font_length * if extended_char_mode { 2 } else { 1 } {
+                return Err(LoadingError::FileTooShort.into());
+            }
             result.clear_font_table();
             let mut font = BitFont::create_8("", 8, font_size, &data[o..(o + font_length)]);
             font.name = guess_font_name(&font);
@@ -271,6 +277,10 @@ fn read_data_compressed(result: &mut Buffer, bytes: &[u8]) -> EngineResult<bool>
                 }
             }
             Compression::Char => {
+                if o + 1 > bytes.len() {
+                    log::error!("Invalid XBin. Read char compression block beyond EOF.");
+                    break;
+                }
                 let char_code = bytes[o];
                 o += 1;
                 for _ in 0..repeat_counter {
@@ -288,6 +298,10 @@ fn read_data_compressed(result: &mut Buffer, bytes: &[u8]) -> EngineResult<bool>
                 }
             }
             Compression::Attr => {
+                if o + 1 > bytes.len() {
+                    log::error!("Invalid XBin. Read attribute compression block beyond EOF.");
+                    break;
+                }
                 let attribute = bytes[o];
                 o += 1;
                 for _ in 0..repeat_counter {
@@ -304,6 +318,10 @@ fn read_data_compressed(result: &mut Buffer, bytes: &[u8]) -> EngineResult<bool>
                 }
             }
             Compression::Full => {
+                if o + 1 > bytes.len() {
+                    log::error!("Invalid XBin. nRead compression block beyond EOF.");
+                    break;
+                }
                 let char_code = bytes[o];
                 o += 1;
                 if o + 1 > bytes.len() {
